@@ -10,7 +10,8 @@ reference model* that drives the native `env.reset` / `env.step` with the docume
     reset:  k, key = split(key);  state, ts = env.reset(k)
     step:   state, ts = env.step(state, a)
 
-Histories.  gym alphabet {reset(), reset(seed=0), reset(seed=1), reset(seed=2), seed(1), step(a0), step(a1)},
+Histories.  gym alphabet {reset(), reset(seed=1), reset(seed=2), seed(1), step(a0), step(a1)} to the
+full length bound and the same alphabet + reset(seed=0) to the bound minus one,
 dm_env alphabet {reset(), step(a0), step(a1)}.  Histories in which a `step` precedes the first
 `reset` are *skipped* (outside the documented API; `seed(1)` may come first).  Every maximal
 history is run from the constructor state and checked after every operation, so every shorter
@@ -105,9 +106,11 @@ CONFIGS: Dict[str, List[Tuple[str, str]]] = {
 }
 assert sorted(CONFIGS) == catalog.FAMILIES
 
-# reset(seed=0) is in the alphabet on purpose: 0 is the one seed a careless `if seed:` would drop.
 GYM_OPS: List[Tuple[str, Optional[int]]] = [
-    ("reset", None), ("reset", 0), ("reset", 1), ("reset", 2), ("seed", 1), ("step", 0), ("step", 1)]
+    ("reset", None), ("reset", 1), ("reset", 2), ("seed", 1), ("step", 0), ("step", 1)]
+# reset(seed=0) is added on purpose (0 is the one seed a careless `if seed:` would drop); the
+# 7-operation alphabet is explored one operation shallower than the 6-operation one.
+GYM_OPS_EXT: List[Tuple[str, Optional[int]]] = GYM_OPS[:1] + [("reset", 0)] + GYM_OPS[1:]
 DM_OPS: List[Tuple[str, Optional[int]]] = [("reset", None), ("step", 0), ("step", 1)]
 GYM_CTOR_SEEDS = (0, 1)
 DM_CTOR_KEYS: Tuple[Optional[int], ...] = (None, 1)  # None: documented default PRNGKey(0); 1: PRNGKey(1)
@@ -154,6 +157,13 @@ def histories(ops: Sequence[Tuple[str, Optional[int]]], length: int) -> List[Tup
         if ok:
             out.append(h)
     return out
+
+
+def gym_histories(length: int) -> List[Tuple[Tuple[str, Optional[int]], ...]]:
+    """Maximal gym histories: all of length `length` over GYM_OPS, plus all of length `length-1`
+    over GYM_OPS_EXT that use reset(seed=0) (the others are prefixes of the former)."""
+    ext = [h for h in histories(GYM_OPS_EXT, length - 1) if ("reset", 0) in h]
+    return histories(GYM_OPS, length) + ext
 
 
 def n_prefixes(hs: Sequence[Tuple[Any, ...]]) -> int:
@@ -204,6 +214,20 @@ def gym_tree(value: Any) -> Any:
     if f is None:
         return np.asarray(value)
     return {k: gym_tree(v) for k, v in f.items()}
+
+
+def fast_equal(a: Any, b: Any) -> bool:
+    """Cheap exact pre-test (structure, dtype, shape, bit-equal values); False only means 'look closer'."""
+    la, ta = jax.tree_util.tree_flatten(a)
+    lb, tb = jax.tree_util.tree_flatten(b)
+    if ta != tb:
+        return False
+    for x, y in zip(la, lb):
+        if type(x) is not np.ndarray or type(y) is not np.ndarray:
+            return False
+        if x.dtype != y.dtype or x.shape != y.shape or not np.array_equal(x, y):
+            return False
+    return True
 
 
 def dict_tree_diff(got: Any, exp: Any, path: str = "obs") -> List[str]:
@@ -528,13 +552,14 @@ class Checker:
                         self.count("terminated_false_truncated_true", int(exp_trunc and not exp_term))
                         self.count("terminated_false_truncated_false", int(not exp_trunc and not exp_term))
             if obs is not None or info is not None:
-                d = dict_tree_diff(obs, gym_tree(ts.observation))
+                exp_obs = gym_tree(ts.observation)
+                d = [] if fast_equal(obs, exp_obs) else dict_tree_diff(obs, exp_obs)
                 if d:
                     probs.append((f"{kind}:observation-differs-from-native", "; ".join(d[:3])))
                 if not isinstance(info, dict):
                     probs.append((f"{kind}:info-not-a-dict", f"info is {type(info).__name__}"))
                 else:
-                    d = leaf_diff(info, dict(ts.extras))
+                    d = [] if fast_equal(info, dict(ts.extras)) else leaf_diff(info, dict(ts.extras))
                     if d:
                         probs.append((f"{kind}:info-differs-from-native-extras", "; ".join(d[:3])))
                 # (3) membership in the converted observation space (not for post-terminal steps)
@@ -560,7 +585,7 @@ class Checker:
                     self.episodes[sig] = (digest, doc["history"], ctor_seed)
                 else:
                     self.count("reseed_repeats_compared")
-                    d = leaf_diff(_norm(digest), _norm(first[0]))
+                    d = [] if fast_equal(_norm(digest), _norm(first[0])) else leaf_diff(_norm(digest), _norm(first[0]))
                     if d:
                         probs.append(("re-seeding-does-not-reproduce-episode",
                                       f"episode (seed={sig[0][0]}, reset #{sig[0][1]}, actions {list(sig[1])}) gave a different "
@@ -672,7 +697,7 @@ class Checker:
                 self.dm_episodes[sig] = (digest, doc["history"])
             else:
                 self.count("dm_episode_repeats_compared")
-                d = leaf_diff(_norm(digest), _norm(first[0]))
+                d = [] if fast_equal(_norm(digest), _norm(first[0])) else leaf_diff(_norm(digest), _norm(first[0]))
                 if d:
                     probs.append(("same-key-schedule-gives-different-episode",
                                   f"differs from history {first[1]}: {'; '.join(d[:3])}"))
@@ -764,7 +789,7 @@ def run_config(family: str, index: int, tier: str, seed: int, model: str = "") -
     states = 0
 
     # ---- gym
-    g_hist = histories(GYM_OPS, b["gym"])
+    g_hist = gym_histories(b["gym"])
     g_pref = n_prefixes(g_hist)
     order = _rotate(g_hist, seed, len(g_hist))  # seed only rotates the order
     for s in GYM_CTOR_SEEDS:
